@@ -142,3 +142,68 @@ def resolve_unwrap_discharge(F, site):
     if not good:
         return None
     return "D-FIRSTROUND: last_eval starts as None, eval_pass(.., None) always yields Some (%s), so the loop body assigns Some before any exit" % reason
+
+
+def resolve_loop_exits(F):
+    """S-CONVERGE: classify the exits of resolve_tx's evaluation loop.
+    Returns list of (kind, line, detail) with kind in {"converged", "error", "unconverged"}"""
+    f, cfg, du, le, calls = resolve_loop_facts(F)
+    loops = cfg.loops()
+    call_bb = calls[0][0]
+    body = None
+    for h, blks in loops.items():
+        if call_bb in blks:
+            if body is None or len(blks) > len(body):
+                body = blks
+    if body is None:
+        raise BrokenCheck("resolve_tx: eval_pass is not called inside a loop (anchor changed)")
+    ok_returns = set()
+    for bi, si, s in mir.stmts(f):
+        rv = s["rv"]
+        if s["lhs"]["l"] == 0 and not s["lhs"]["p"] and rv["k"] == "agg" and rv.get("variant") == "Ok" and rv.get("adt", "").endswith("::Result"):
+            ok_returns.add(bi)
+    out = []
+    for u in sorted(body):
+        for v in cfg.succ[u]:
+            if v in body or f["blocks"][v]["cleanup"]:
+                continue
+            reach = cfg.reach_from(v)
+            line = f["blocks"][u]["t"].get("line")
+            if not (ok_returns & reach) and v not in ok_returns:
+                out.append(("error", line, "exit to an error return"))
+                continue
+            # success exit: must be the None edge of the match on eval_pass's result
+            conv = False
+            for (sb, none_t, some_t) in _all_option_switches(f):
+                if sb == u and v == none_t:
+                    # the matched value derives from the eval_pass call
+                    dl = _switch_scrutinee(f, sb)
+                    orig = mir.provenance(f, du, {"l": dl, "p": []}) if dl is not None else []
+                    if any(o.kind == "call" and o.callee.startswith("tx3_resolver::eval_pass") for o in orig):
+                        conv = True
+            out.append(("converged" if conv else "unconverged", line,
+                        "leaves the loop on eval_pass() == None" if conv else "leaves the loop towards `Ok(..)` without eval_pass having reported convergence"))
+    return f, out
+
+
+def _switch_scrutinee(f, bb):
+    b = f["blocks"][bb]
+    t = b["t"]
+    pl = mir.op_place(t["discr"])
+    if pl is None:
+        return None
+    for s in b["s"]:
+        if s["lhs"]["l"] == pl["l"] and s["rv"]["k"] == "discr":
+            return s["rv"]["pl"]["l"]
+    return None
+
+
+def _all_option_switches(f):
+    out = []
+    for bi, b in enumerate(f["blocks"]):
+        if b["cleanup"] or b["t"]["k"] != "switch":
+            continue
+        for s in b["s"]:
+            if s["rv"]["k"] == "discr" and s["rv"]["adt"].endswith("::Option"):
+                out += [x for x in option_switch(f, s["rv"]["pl"]["l"]) if x[0] == bi]
+    return out
